@@ -85,7 +85,11 @@ def known_still_fails(k):
     if key not in _kf_cache:
         try:
             from . import replayrun
-            r = replayrun.run(rp['mode'], rp['input'], timeout=60)
+            data = rp.get('input')
+            if data is None and rp.get('input_gen'):
+                g = rp['input_gen']
+                data = g['prefix'] + g['open'] * g['n'] + g.get('mid', '') + g.get('close', '') * g['n'] + g['suffix']
+            r = replayrun.run(rp['mode'], data, timeout=60)
             fw = rp.get('fails_when', {})
             ok = all(r.get(a) == b for a, b in fw.items() if a != 'result')
             for a, b in fw.get('result', {}).items():
